@@ -203,15 +203,15 @@ func (c crashPoint) String() string {
 }
 
 type outcome struct {
-	Point      crashPoint `json:"point"`
-	Reached    bool       `json:"reached"` // the selected process died at the point
-	Know       Know       `json:"know"`
-	Steps      []step     `json:"steps"`
-	After      any        `json:"after"` // what the restarted daemon answered
+	Point      crashPoint  `json:"point"`
+	Reached    bool        `json:"reached"` // the selected process died at the point
+	Know       Know        `json:"know"`
+	Steps      []step      `json:"steps"`
+	After      any         `json:"after"` // what the restarted daemon answered
 	Violations []Violation `json:"violations"`
-	Inconcl    []string   `json:"inconclusive"`
-	Class      string     `json:"class"` // crash window per the policy table
-	Dir        string     `json:"dir"`
+	Inconcl    []string    `json:"inconclusive"`
+	Class      string      `json:"class"` // crash window per the policy table
+	Dir        string      `json:"dir"`
 }
 
 func findWorkload(name string) *workload {
@@ -399,24 +399,32 @@ func experiment(bin, base string, cp crashPoint, idx int) *outcome {
 
 		return o
 	}
-	// every unit directory must be answerable, acked or not (no query blocks)
-	for _, id := range d.ListUnitDirs() {
-		_, _, err := statusOf(d, id, 20*time.Second)
-		if err != nil {
-			if w, why := wedged(d); w {
-				viol("C04:status-query-blocks", fmt.Sprintf("'work status %s' (directory on disk) never answers: %s", id, why))
-			} else {
-				o.Inconcl = append(o.Inconcl, fmt.Sprintf("work status %s: %v (%s)", id, err, why))
-			}
+	probeDirs := func() bool {
+		// every unit directory must be answerable, acked or not (no query blocks)
+		for _, id := range d.ListUnitDirs() {
+			_, _, err := statusOf(d, id, 20*time.Second)
+			if err != nil {
+				if w, why := wedged(d); w {
+					viol("C04:status-query-blocks", fmt.Sprintf("'work status %s' (directory on disk) never answers: %s", id, why))
+				} else {
+					o.Inconcl = append(o.Inconcl, fmt.Sprintf("work status %s: %v (%s)", id, err, why))
+				}
 
-			return o
+				return false
+			}
 		}
+
+		return true
 	}
 	if !k.Acked {
+		probeDirs()
+
 		return o // nothing else is demanded about a unit whose id nobody was given
 	}
 	if k.RelAsked {
 		// release in progress: the unit is either still there (with its type) or gone; both are allowed
+		probeDirs()
+
 		return o
 	}
 	ent, listed := lr.JSON[k.ID].(map[string]any)
@@ -439,6 +447,9 @@ func experiment(bin, base string, cp crashPoint, idx int) *outcome {
 				ent = e2
 			}
 		}
+	}
+	if !probeDirs() {
+		return o
 	}
 	if !listed {
 		viol("C04:acked-unit-not-listed"+suffix, fmt.Sprintf("unit %s had been acknowledged but is not listed after restart (%s)", k.ID, o.Class))
